@@ -43,7 +43,12 @@ def client_data(n, idx, seed=0, domains=2, dtype=np.float32):
   return {'x': x, 'y': y, 'domain_id': d}
 
 
-def population(sizes, seed=0, domains=2, ids=None, data_fn=None, typed_keys=False):
+def _center_on_batch_mean(batch):
+  """A batch-LEVEL preprocessing fn (allowed by BatchPreprocessor): features centred on the mean of the batch they are in."""
+  return {**batch, 'x': batch['x'] - batch['x'].mean(axis=0, keepdims=True) if len(batch['x']) else batch['x']}
+
+
+def population(sizes, seed=0, domains=2, ids=None, data_fn=None, typed_keys=False, batch_level_pre=False):
   """[(client_id, ClientDataset, PRNGKey)]; typed_keys: new-style jax.random.key(...) keys with the same key data."""
   import fedjax
   import jax
@@ -51,7 +56,9 @@ def population(sizes, seed=0, domains=2, ids=None, data_fn=None, typed_keys=Fals
   for i, n in enumerate(sizes):
     cid = ids[i] if ids else (b'c%d' % i)
     ex = (data_fn or client_data)(n, i, seed, domains)
-    out.append((cid, fedjax.ClientDataset(ex), jax.random.key(100 + i) if typed_keys else jax.random.PRNGKey(100 + i)))
+    from fedjax.core import client_datasets as _cds
+    ds = fedjax.ClientDataset(ex, _cds.BatchPreprocessor([_center_on_batch_mean])) if batch_level_pre else fedjax.ClientDataset(ex)
+    out.append((cid, ds, jax.random.key(100 + i) if typed_keys else jax.random.PRNGKey(100 + i)))
   return out
 
 
